@@ -1,6 +1,6 @@
 (* C05/Proofs.v — index algebra of the perturbation-based methods and the exact-zero clauses *)
 From Xpl Require Import Base.Tensor C05.Spec C06.Proofs C08.Proofs.
-From Coq Require Import Arith.
+From Coq Require Import Arith Lqa.
 Close Scope Qc_scope. Open Scope nat_scope.
 
 (* ================================================================== nearest-neighbour upsampling *)
@@ -393,6 +393,44 @@ Proof.
   - unfold nthq. rewrite !nth_overflow; [reflexivity | |]; rewrite map_length, seq_length; lia.
 Qed.
 
+(* the outputs on the replicated block C_i equal the outputs on A when cell i is inert *)
+Lemma inert_block_outputs pf g H W C n A B x t R i :
+  is_matrix n (g * g) A -> is_matrix n (g * g) B -> (i < g * g)%nat ->
+  ignores_outside C R score -> inert_cell g H W R i = true ->
+  map (fun m => score (perturb (pf x) g H W C x m) t) (c_block i A B)
+  = map (fun m => score (perturb (pf x) g H W C x m) t) A.
+Proof.
+  intros HA HB Hi Hig Hin.
+  assert (Hs : forall ra rc, In (ra, rc) (combine A (c_block i A B)) ->
+             score (perturb (pf x) g H W C x rc) t = score (perturb (pf x) g H W C x ra) t).
+  { intros ra rc Hrc. pose proof Hrc as Hra. apply in_combine_l in Hra.
+    apply in_combine_c_block in Hrc. destruct Hrc as [rb ->].
+    apply Hig. apply perturb_agree; [exact Hin|]. destruct HA as [_ HA]. rewrite (HA ra Hra). exact Hi. }
+  assert (Hlen : length (c_block i A B) = length A).
+  { apply c_block_length. destruct HA as [-> _]. destruct HB as [-> _]. reflexivity. }
+  revert Hlen Hs. generalize (c_block i A B) as Cb. clear HA HB. intro Cb. revert Cb.
+  induction A as [|ra A' IH]; intros [|rc Cb] Hlen Hs; cbn [length] in Hlen; try lia; [reflexivity|].
+  cbn [map]. f_equal; [apply Hs; left; reflexivity|]. apply IH; [lia|].
+  intros a c Hin'. apply Hs. right. exact Hin'.
+Qed.
+
+(* any estimator [est] that is, dimension by dimension, a formula [spec] of (f(A), f(C_i)) gives an inert cell the value
+   spec f(A) f(A): the value the formula takes on a dimension the outputs do not depend on *)
+Theorem sobol_inert_value (est : list Qc -> nat -> nat -> list Qc) (spec : list Qc -> list Qc -> Qc) :
+  (forall ya yb ycs n d, length ya = n -> length yb = n -> length ycs = d ->
+      (forall c, In c ycs -> length c = n) -> est (ya ++ yb ++ concat ycs) n d = map (spec ya) ycs) ->
+  forall pf g H W C bs n A B x t R i,
+  bs_valid bs -> is_matrix n (g * g) A -> is_matrix n (g * g) B -> (i < g * g)%nat ->
+  ignores_outside C R score -> inert_cell g H W R i = true ->
+  let fA := map (fun m => score (perturb (pf x) g H W C x m) t) A in
+  nthq (nth 0 (sobol_explain score est pf g H W C bs n (replicated_design (g * g) A B) [x] [t]) []) i = spec fA fA.
+Proof.
+  intros Hest pf g H W C bs n A B x t R i Hb HA HB Hi Hig Hin. cbv zeta.
+  rewrite (sobol_map_is_estimator_gen est spec Hest) by assumption. cbn [map2 nth]. cbv zeta.
+  unfold nthq. rewrite nth_map_seq by exact Hi.
+  rewrite (inert_block_outputs pf g H W C n A B x t R i) by assumption. reflexivity.
+Qed.
+
 (* a grid cell none of whose pixels lies in the region gets a total-order index of exactly 0, before upsampling:
    any perturbation function, any forward batch size, any replicated design, any image and grid geometry *)
 Theorem sobol_zero_inert pf g H W C bs n A B x t R i :
@@ -400,10 +438,34 @@ Theorem sobol_zero_inert pf g H W C bs n A B x t R i :
   ignores_outside C R score -> inert_cell g H W R i = true ->
   nthq (nth 0 (sobol_explain score jansen pf g H W C bs n (replicated_design (g * g) A B) [x] [t]) []) i = 0.
 Proof.
-  intros Hb HA HB Hi Hig Hin. apply sobol_cell_zero_inert; try assumption.
-  intros ra rc Hrc. pose proof Hrc as Hra. apply in_combine_l in Hra.
-  apply in_combine_c_block in Hrc. destruct Hrc as [rb ->].
-  apply Hig. apply perturb_agree; [exact Hin|]. destruct HA as [_ HA]. rewrite (HA ra Hra). exact Hi.
+  intros Hb HA HB Hi Hig Hin.
+  rewrite (sobol_inert_value jansen jansen_spec jansen_formula pf g H W C bs n A B x t R i) by assumption.
+  apply jansen_zero_inert.
+Qed.
+
+(* the four other estimators, as soon as the outputs on A are not all equal (non-zero variance: the estimators
+   divide by it); Glen needs what a square root does on a square *)
+Theorem sobol_zero_inert_all pf g H W C bs n A B x t R i :
+  bs_valid bs -> is_matrix n (g * g) A -> is_matrix n (g * g) B -> (i < g * g)%nat ->
+  ignores_outside C R score -> inert_cell g H W R i = true ->
+  let low est := nth 0 (sobol_explain score est pf g H W C bs n (replicated_design (g * g) A B) [x] [t]) [] in
+  let fA := map (fun m => score (perturb (pf x) g H W C x m) t) A in
+  nthq (low jansen) i = 0 /\
+  (Vpop fA <> 0 -> nthq (low homma) i = 0 /\ nthq (low saltelli) i = 0 /\ nthq (low janon) i = 0 /\
+     forall sqrt : Qc -> Qc, sqrt (Vpop fA * Vpop fA) = Vpop fA -> nthq (low (glen sqrt)) i = 0).
+Proof.
+  intros Hb HA HB Hi Hig Hin. cbv zeta. split; [apply (sobol_zero_inert pf g H W C bs n A B x t R i); assumption|].
+  intro HV. repeat split.
+  - rewrite (sobol_inert_value homma homma_spec homma_formula pf g H W C bs n A B x t R i) by assumption.
+    apply homma_zero_inert. exact HV.
+  - rewrite (sobol_inert_value saltelli saltelli_spec saltelli_formula pf g H W C bs n A B x t R i) by assumption.
+    apply saltelli_zero_inert. exact HV.
+  - rewrite (sobol_inert_value janon janon_published janon_formula pf g H W C bs n A B x t R i) by assumption.
+    apply janon_zero_inert. exact HV.
+  - intros sqrt Hs.
+    rewrite (sobol_inert_value (glen sqrt) (glen_spec sqrt) (fun ya yb ycs n d Ha Hb Hd Hc => glen_formula ya yb ycs n d Ha Hb Hd Hc sqrt)
+               pf g H W C bs n A B x t R i) by assumption.
+    apply glen_zero_inert; assumption.
 Qed.
 
 (* hence (Jansen's estimator is a sum of squares over a variance) no inert cell beats any cell: the largest index
@@ -422,10 +484,10 @@ Proof.
 Qed.
 End Zero.
 
-(* ------------------------------------------------------------------ the exact-zero clause is Jansen's (and Janon's) only
-   SobolAttributionMethod(estimator=HommaEstimator() / SaltelliEstimator()): these two divide the 1/n moment
+(* ------------------------------------------------------------------ record of the defect fixed in /repo (469446f, 124b443)
+   SobolAttributionMethod(estimator=HommaEstimator() / SaltelliEstimator()) as found: these two divided the 1/n moment
    (1/n) sum(a * c_i) - mu^2 by the UNBIASED variance sum((a - mu)^2) / (n - 1); for an inert cell (c_i = a) the
-   result is 1/n, not 0.  Witness: 1x2 image, 2x2 grid (cells 0 and 1 are read by no pixel: inert whatever the region),
+   result was 1/n, not 0 (homma_orig / saltelli_orig of C08 transcribe the old code).  Witness: 1x2 image, 2x2 grid (cells 0 and 1 are read by no pixel: inert whatever the region),
    score = first feature, n = 2. *)
 Definition refut_score : list Qc -> list Qc -> Qc := fun x _ => nthq x 0.
 Definition refut_R : nat -> bool := fun p => Nat.eqb p 0.
@@ -435,11 +497,11 @@ Definition refut_low (est : list Qc -> nat -> nat -> list Qc) : list Qc :=
   nth 0 (sobol_explain refut_score est (fun _ => Baseline [0; 0]) 2 1 2 1 None 2
                        (replicated_design 4 refut_A refut_B) [[1; 1]] [[]]) [].
 
-Lemma sobol_zero_inert_refuted_homma_saltelli :
+Lemma sobol_zero_inert_refuted_orig :
   bs_valid None /\ is_matrix 2 4 refut_A /\ is_matrix 2 4 refut_B /\
   ignores_outside 1 refut_R refut_score /\ inert_cell 2 1 2 refut_R 0 = true /\
-  nthq (refut_low jansen) 0 = 0 /\ nthq (refut_low janon) 0 = 0 /\
-  nthq (refut_low homma) 0 = q 1 2 /\ nthq (refut_low saltelli) 0 = q 1 2 /\ q 1 2 <> 0.
+  nthq (refut_low jansen) 0 = 0 /\ nthq (refut_low homma) 0 = 0 /\
+  nthq (refut_low homma_orig) 0 = q 1 2 /\ nthq (refut_low saltelli_orig) 0 = q 1 2 /\ q 1 2 <> 0.
 Proof.
   split; [exact I|]. split; [split; [reflexivity | intros r [<-|[<-|[]]]; reflexivity]|].
   split; [split; [reflexivity | intros r [<-|[<-|[]]]; reflexivity]|].
@@ -451,3 +513,248 @@ Proof.
   split; [apply Qceqb_eq; vm_compute; reflexivity|].
   intro E. apply Qceqb_eq in E. vm_compute in E. discriminate E.
 Qed.
+
+Lemma sobol_zero_inert_refuted_orig_exists :
+  exists (score : list Qc -> list Qc -> Qc) pf g H W C bs n A B x t (R : nat -> bool) i,
+    bs_valid bs /\ is_matrix n (g * g) A /\ is_matrix n (g * g) B /\ (i < g * g)%nat /\
+    ignores_outside C R score /\ inert_cell g H W R i = true /\
+    let low est := nth 0 (sobol_explain score est pf g H W C bs n (replicated_design (g * g) A B) [x] [t]) [] in
+    nthq (low jansen) i = 0 /\ nthq (low homma) i = 0 /\
+    nthq (low homma_orig) i = 1 / qn n /\ nthq (low saltelli_orig) i = 1 / qn n /\ 1 / qn n <> 0.
+Proof.
+  exists refut_score, (fun _ => Baseline [0; 0]), 2%nat, 1%nat, 2%nat, 1%nat, None, 2%nat, refut_A, refut_B,
+         [1; 1], [], refut_R, 0%nat.
+  destruct sobol_zero_inert_refuted_orig as (H1 & H2 & H3 & H4 & H5 & H6 & H7 & H8 & H9 & H10).
+  assert (E : 1 / qn 2 = q 1 2) by (apply Qceqb_eq; vm_compute; reflexivity).
+  repeat split; try assumption; try (apply H2); try (apply H3); try lia; cbv zeta; rewrite ?E; assumption.
+Qed.
+
+(* ================================================================== statements in the words of the property
+   (the decidable predicates occl_untouched / inert_cell unfolded into their meaning) *)
+Lemma occl_untouched_intro g R pos :
+  (forall P, In P (patches g) -> covers g P pos = true ->
+      forall p, (p < geom_npos g)%nat -> covers g P p = true -> R p = false) ->
+  occl_untouched g R pos = true.
+Proof.
+  intro Hun. unfold occl_untouched. apply forallb_forall. intros P HP.
+  destruct (covers g P pos) eqn:Ec; [|reflexivity]. cbn [negb orb].
+  destruct (patch_meets g R P) eqn:Em; [|reflexivity]. exfalso.
+  unfold patch_meets in Em. apply existsb_exists in Em. destruct Em as [p [Hp Hcr]]. apply in_seq in Hp.
+  apply andb_true_iff in Hcr. destruct Hcr as [Hc HR].
+  rewrite (Hun P HP Ec p) in HR by (try assumption; lia). discriminate.
+Qed.
+
+Lemma inert_cell_intro g H W R i :
+  (forall pos, (pos < H * W)%nat -> (nb_idx g H (pos / W) * g + nb_idx g W (pos mod W))%nat = i -> R pos = false) ->
+  inert_cell g H W R i = true.
+Proof.
+  intro Hin. unfold inert_cell. apply forallb_forall. intros pos Hp. apply in_seq in Hp.
+  destruct (Nat.eqb (cell_of g H W pos) i) eqn:E; [|reflexivity]. cbn [negb orb].
+  apply Nat.eqb_eq in E. rewrite (Hin pos) by (try assumption; lia). reflexivity.
+Qed.
+
+Lemma ignores_outside_intro c R (score : list Qc -> list Qc -> Qc) :
+  (forall x x' t, length x = length x' ->
+      (forall k, R (k / c)%nat = true -> nthq x k = nthq x' k) -> score x t = score x' t) ->
+  ignores_outside c R score.
+Proof. intros Hig x x' t [Hl Hk]. apply Hig; assumption. Qed.
+
+Lemma occlusion_zero_outside_words (score : list Qc -> list Qc -> Qc) g bs v xs ts (R : nat -> bool) m pos :
+  geom_ok g -> bs_ok bs -> (forall x, In x xs -> length x = geom_size g) ->
+  (forall x x' t, length x = length x' ->
+      (forall k, R (k / geom_chan g)%nat = true -> nthq x k = nthq x' k) -> score x t = score x' t) ->
+  In m (occlusion score g bs v xs ts) -> (pos < geom_npos g)%nat ->
+  (forall P, In P (patches g) -> covers g P pos = true ->
+      forall p, (p < geom_npos g)%nat -> covers g P p = true -> R p = false) ->
+  nthq m pos = 0.
+Proof.
+  intros Hok Hbs Hxs Hig Hm Hpos Hun.
+  apply (occlusion_zero_outside score g bs v xs ts R m pos); try assumption.
+  - apply ignores_outside_intro. exact Hig.
+  - apply occl_untouched_intro. exact Hun.
+Qed.
+
+Lemma sobol_zero_inert_words (score : list Qc -> list Qc -> Qc) pf g H W C bs n A B x t (R : nat -> bool) i :
+  bs_valid bs -> is_matrix n (g * g) A -> is_matrix n (g * g) B -> (i < g * g)%nat ->
+  (forall x x' t, length x = length x' ->
+      (forall k, R (k / C)%nat = true -> nthq x k = nthq x' k) -> score x t = score x' t) ->
+  (forall pos, (pos < H * W)%nat -> (nb_idx g H (pos / W) * g + nb_idx g W (pos mod W))%nat = i -> R pos = false) ->
+  let low est := nth 0 (sobol_explain score est pf g H W C bs n (replicated_design (g * g) A B) [x] [t]) [] in
+  let fA := map (fun m => score (perturb (pf x) g H W C x m) t) A in
+  nthq (low jansen) i = 0 /\
+  (Vpop fA <> 0 -> nthq (low homma) i = 0 /\ nthq (low saltelli) i = 0 /\ nthq (low janon) i = 0 /\
+     forall sqrt : Qc -> Qc, sqrt (Vpop fA * Vpop fA) = Vpop fA -> nthq (low (glen sqrt)) i = 0).
+Proof.
+  intros Hb HA HB Hi Hig Hin.
+  apply (sobol_zero_inert_all score pf g H W C bs n A B x t R i); try assumption.
+  - apply ignores_outside_intro. exact Hig.
+  - apply inert_cell_intro. exact Hin.
+Qed.
+
+Lemma sobol_cell_of_dim {A} (d : A) g (design : list (list A)) (stis : list A) :
+  (forall k a b, (a < g)%nat -> (b < g)%nat -> (k < length design)%nat ->
+      cell d (nth k (sobol_masks g design) []) a b = nth (a * g + b) (nth k design []) d) /\
+  (forall a b, (a < g)%nat -> (b < g)%nat -> cell d (sobol_post g stis) a b = nth (a * g + b) stis d) /\
+  (forall k, (k < g * g)%nat -> cell d (sobol_post g stis) (k / g) (k mod g) = nth k stis d) /\
+  (length stis = (g * g)%nat -> concat (sobol_post g stis) = stis).
+Proof.
+  split; [intros; apply sobol_mask_cell; assumption|].
+  split; [intros; apply sobol_post_cell; assumption|].
+  split; [intros; apply sobol_post_dim; assumption | apply sobol_post_flat].
+Qed.
+
+Lemma hsic_cell_of_dim {A} (d : A) g n (masks : list (list (list A))) (scores : list A) a b :
+  (a < g)%nat -> (b < g)%nat ->
+  nth (b * g + a) (hsic_dims_lit d g n masks) [] = map (fun k => cell d (nth k masks []) a b) (seq 0 n) /\
+  cell d (hsic_post_lit d g scores) a b = nth (b * g + a) scores d.
+Proof. intros. split; [apply hsic_dims_cell | apply hsic_post_cell]; assumption. Qed.
+
+Lemma index_maps_are_C08 :
+  (forall g n i, near g n i = nb_idx g n i) /\
+  (forall g H W C (m : list Qc) k, up_at g H W C m k = nthq m (cell_of g H W (k / C))) /\
+  (forall g n (design : list (list Qc)), length design = n ->
+      hsic_dims_lit 0 g n (sobol_masks g design) = hsic_dims g design) /\
+  (forall g (scores : list Qc), concat (hsic_post_lit 0 g scores) = hsic_post g scores).
+Proof.
+  split; [exact near_is_nb_idx|]. split; [exact up_at_cell_of|].
+  split; [exact hsic_dims_lit_C08 | exact hsic_post_lit_C08].
+Qed.
+
+Close Scope Qc_scope. Open Scope nat_scope.
+(* ================================================================== Occlusion: the largest value is inside the region *)
+(* projection of a coordinate on [lo, hi) *)
+Definition clamp (lo hi i : nat) : nat := if i <? lo then lo else if hi <=? i then hi - 1 else i.
+(* projection of a position on the rectangle *)
+Definition project (w r0 r1 c0 c1 pos : nat) : nat := clamp r0 r1 (pos / w) * w + clamp c0 c1 (pos mod w).
+
+Lemma clamp_in lo hi i : lo < hi -> lo <= clamp lo hi i < hi.
+Proof. intro H. unfold clamp. destruct (Nat.ltb_spec i lo); [lia|]. destruct (Nat.leb_spec hi i); lia. Qed.
+
+(* an interval [a, a+p) that contains i and meets [lo, hi) contains the projection of i *)
+Lemma clamp_inpatch a p lo hi i k : lo < hi -> inpatch a p i = true -> inpatch a p k = true -> lo <= k < hi ->
+  inpatch a p (clamp lo hi i) = true.
+Proof.
+  unfold inpatch, clamp. intros H Hi Hk Hr.
+  apply andb_true_iff in Hi as [Hi1 Hi2]. apply andb_true_iff in Hk as [Hk1 Hk2].
+  apply Nat.leb_le in Hi1, Hk1. apply Nat.ltb_lt in Hi2, Hk2. apply andb_true_iff.
+  destruct (Nat.ltb_spec i lo); [split; [apply Nat.leb_le | apply Nat.ltb_lt]; lia|].
+  destruct (Nat.leb_spec hi i); (split; [apply Nat.leb_le | apply Nat.ltb_lt]; lia).
+Qed.
+
+Lemma project_div_mod w r0 r1 c0 c1 pos : c0 < c1 -> c1 <= w ->
+  project w r0 r1 c0 c1 pos / w = clamp r0 r1 (pos / w) /\ project w r0 r1 c0 c1 pos mod w = clamp c0 c1 (pos mod w).
+Proof.
+  intros Hc Hw. unfold project. pose proof (clamp_in c0 c1 (pos mod w) Hc) as Hb.
+  assert (Hw0 : w <> 0) by lia. split.
+  - rewrite Nat.div_add_l by exact Hw0. rewrite (Nat.div_small (clamp c0 c1 (pos mod w)) w) by lia. lia.
+  - rewrite Nat.add_comm, Nat.mod_add by exact Hw0. apply Nat.mod_small. lia.
+Qed.
+
+Lemma rect_true w r0 r1 c0 c1 pos :
+  rect w r0 r1 c0 c1 pos = true <-> (r0 <= pos / w < r1 /\ c0 <= pos mod w < c1).
+Proof.
+  unfold rect. rewrite !andb_true_iff, !Nat.leb_le, !Nat.ltb_lt. lia.
+Qed.
+
+Lemma project_in_rect h w r0 r1 c0 c1 pos : r0 < r1 -> r1 <= h -> c0 < c1 -> c1 <= w ->
+  project w r0 r1 c0 c1 pos < h * w /\ rect w r0 r1 c0 c1 (project w r0 r1 c0 c1 pos) = true.
+Proof.
+  intros Hr Hh Hc Hw. pose proof (clamp_in r0 r1 (pos / w) Hr) as Ha. pose proof (clamp_in c0 c1 (pos mod w) Hc) as Hb.
+  split; [unfold project; nia|]. apply rect_true.
+  destruct (project_div_mod w r0 r1 c0 c1 pos Hc Hw) as [-> ->]. lia.
+Qed.
+
+Open Scope Qc_scope.
+
+Lemma qsum_map_le {T} (f g : T -> Qc) l : (forall x, In x l -> f x <= g x) -> qsum (map f l) <= qsum (map g l).
+Proof.
+  induction l as [|x l IH]; intro H; cbn [map qsum]; [apply Qcle_refl|].
+  apply Qcplus_le_compat; [apply H; left; reflexivity | apply IH; intros y Hy; apply H; right; exact Hy].
+Qed.
+
+Section OcclMax.
+Variable score : list Qc -> list Qc -> Qc.
+Variables (h w c p0 p1 s0 s1 r0 r1 c0 c1 : nat).
+Let g := Grid h w c p0 p1 s0 s1.
+Let R := rect w r0 r1 c0 c1.
+Hypothesis Hr : (r0 < r1)%nat.
+Hypothesis Hh : (r1 <= h)%nat.
+Hypothesis Hc : (c0 < c1)%nat.
+Hypothesis Hw : (c1 <= w)%nat.
+Hypothesis Hig : ignores_outside c R score.
+Hypothesis Hinc : increasing score.
+
+(* occluding any patch does not increase the score when the occlusion value is below the input on the region *)
+Lemma occlude_delta_nonneg v x t P : length x = geom_size g ->
+  (forall k, (k < length x)%nat -> R (k / c)%nat = true -> v <= nthq x k) ->
+  0 <= score x t - score (occlude g v x P) t.
+Proof.
+  intros Hx Hv.
+  set (y := map (fun k => if R (k / c)%nat then nthq (occlude g v x P) k else nthq x k) (seq 0 (length x))).
+  assert (Hly : length y = length x) by (unfold y; rewrite map_length, seq_length; reflexivity).
+  assert (Hlo : length (occlude g v x P) = length x) by (unfold occlude; rewrite map_length, seq_length; reflexivity).
+  assert (Hny : forall k, (k < length x)%nat ->
+            nthq y k = if R (k / c)%nat then nthq (occlude g v x P) k else nthq x k).
+  { intros k Hk. unfold y. rewrite (nthq_map _ _ 0%nat) by (rewrite seq_length; exact Hk).
+    rewrite seq_nth by exact Hk. reflexivity. }
+  assert (E : score (occlude g v x P) t = score y t).
+  { apply Hig. split; [congruence|]. intros k HR. destruct (lt_dec k (length x)) as [Hk|Hk].
+    - rewrite (Hny k Hk). change (geom_chan g) with c in *. rewrite HR. reflexivity.
+    - unfold nthq. rewrite !nth_overflow; [reflexivity | lia | lia]. }
+  rewrite E. assert (Hle : score y t <= score x t).
+  { apply Hinc; [exact Hly|]. intro k. destruct (lt_dec k (length x)) as [Hk|Hk].
+    - rewrite (Hny k Hk). destruct (R (k / c)%nat) eqn:HR; [|apply Qcle_refl].
+      unfold occlude. rewrite (nthq_map _ _ 0%nat) by (rewrite seq_length; exact Hk).
+      rewrite seq_nth by exact Hk. cbn [plus].
+      destruct (covers g P (k / geom_chan g)); [apply Hv; assumption | apply Qcle_refl].
+    - unfold nthq. rewrite !nth_overflow; [apply Qcle_refl | lia | lia]. }
+  qc2q. lra.
+Qed.
+
+(* every patch that covers pos and meets the rectangle covers the projection of pos *)
+Lemma covers_project P pos : covers g P pos = true -> patch_meets g R P = true ->
+  covers g P (project w r0 r1 c0 c1 pos) = true.
+Proof.
+  intros Hcv Hm. destruct P as [a | a b]; [discriminate Hcv|]. cbn [covers g] in *.
+  unfold patch_meets in Hm. apply existsb_exists in Hm. destruct Hm as [k [_ Hk]].
+  apply andb_true_iff in Hk as [Hck HRk]. cbn [covers] in Hck.
+  apply andb_true_iff in Hcv as [Hc1 Hc2]. apply andb_true_iff in Hck as [Hk1 Hk2].
+  apply rect_true in HRk. destruct HRk as [Hrk Hckk].
+  destruct (project_div_mod w r0 r1 c0 c1 pos Hc Hw) as [-> ->].
+  apply andb_true_iff. split.
+  - apply (clamp_inpatch a p0 r0 r1 (pos / w) (k / w)); assumption.
+  - apply (clamp_inpatch b p1 c0 c1 (pos mod w) (k mod w)); assumption.
+Qed.
+
+(* position by position: the projection on the rectangle scores at least as much *)
+Lemma spec_at_le_project v x t pos : length x = geom_size g ->
+  (forall k, (k < length x)%nat -> R (k / c)%nat = true -> v <= nthq x k) ->
+  spec_at score g v x t pos <= spec_at score g v x t (project w r0 r1 c0 c1 pos).
+Proof.
+  intros Hx Hv. unfold spec_at. apply qsum_map_le. intros P _.
+  pose proof (occlude_delta_nonneg v x t P Hx Hv) as Hd.
+  destruct (covers g P pos) eqn:Ecp.
+  - destruct (patch_meets g R P) eqn:Em.
+    + rewrite (covers_project P pos Ecp Em). apply Qcle_refl.
+    + assert (E0 : score (occlude g v x P) t = score x t).
+      { apply Hig. apply (occlude_agree g v x P R); assumption. }
+      rewrite E0. destruct (covers g P (project w r0 r1 c0 c1 pos)); qc2q; lra.
+  - destruct (covers g P (project w r0 r1 c0 c1 pos)); [exact Hd | apply Qcle_refl].
+Qed.
+
+Theorem occlusion_max_in_region bs v xs ts m : geom_ok g -> bs_ok bs ->
+  (forall x, In x xs -> length x = geom_size g) ->
+  (forall x, In x xs -> forall k, (k < length x)%nat -> R (k / c)%nat = true -> v <= nthq x k) ->
+  In m (occlusion score g bs v xs ts) -> max_inside (h * w) R m.
+Proof.
+  intros Hok Hbs Hxs Hv Hm. rewrite occlusion_correct in Hm by assumption.
+  unfold spec_occlusion in Hm. apply in_map2 in Hm. destruct Hm as [x [t [Hx [_ ->]]]].
+  intros p Hp _. exists (project w r0 r1 c0 c1 p).
+  destruct (project_in_rect h w r0 r1 c0 c1 p Hr Hh Hc Hw) as [Hlt HR].
+  split; [exact Hlt|]. split; [exact HR|].
+  unfold spec_map. change (geom_npos g) with (h * w)%nat.
+  rewrite !(nthq_map _ _ 0%nat) by (rewrite seq_length; assumption).
+  rewrite !seq_nth by assumption. cbn [plus].
+  apply spec_at_le_project; [apply Hxs; exact Hx | apply Hv; exact Hx].
+Qed.
+End OcclMax.
